@@ -452,7 +452,7 @@ def cases(tier: str, seed: int):
     for rep in range(60 if tier == 'quick' else 600):
         yield mk({'class': 'reverse-switch', 'role': 'reverse', 'requests': rng.choice([3, 6, 12]), 'ending': rng.choice(['silence', 'close']),
                   'holes': rng.choice([0, 1, 3, 5])})
-    for k in range(500 if tier == 'quick' else 6000):
+    for k in range(300 if tier == 'quick' else 6000):
         kind = rng.choice(['random', 'mutate', 'insert', 'delete', 'special', 'nonutf8', 'concat'])
         c = {'kind': kind, 'base': rng.choice(c06.BASES), 'pos': rng.randrange(400), 'byte': rng.choice(c06.BYTES), 'n': rng.choice([1, 2, 5]),
              'idx': rng.randrange(len(c06.SPECIALS)), 'field': rng.choice(['method', 'host', 'path', 'version', 'header-name', 'header-value', 'connect-host', 'web-path', 'web-ua', 'body']),
